@@ -98,10 +98,18 @@ class _ConcurrentExecutor(object):
 
     def _on_success(self, result, future, idx):
         future.clear_callbacks()
-        self._put_result(ResultSet(future, result), idx, True)
+        self._deliver(ResultSet(future, result), idx, True)
 
     def _on_error(self, result, future, idx):
-        self._put_result(result, idx, False)
+        self._deliver(result, idx, False)
+
+    def _deliver(self, result, idx, success):
+        # add_callbacks() runs the callback at once when the future is already complete, i.e. from
+        # inside _execute(): bound that recursion like the execute_async()-raises path
+        if self._exec_depth < self.max_error_recursion:
+            self._put_result(result, idx, success)
+        else:
+            self.session.submit(self._put_result, result, idx, success)
 
 
 class ConcurrentExecutorGenResults(_ConcurrentExecutor):
